@@ -75,6 +75,28 @@ def _record_sharing(R, evs, yields, out):
             for oid, (o_, w_) in _containers(v_).items():
                 kept[oid] = 'self.%s' % k_
     seen_rec = {}
+    # the reader reads nothing from a record after handing it out (the consumer may have edited it by then)
+    handed = {}
+    for e in evs:
+        if e.kind == 'yield':
+            for oid, (o_, w_) in _containers(e.data['value']).items():
+                if isinstance(o_, (ADict, AList)):
+                    handed.setdefault(oid, w_)
+            continue
+        if not handed:
+            continue
+        o_ = None
+        if e.kind == 'container-read':
+            o_ = e.data['obj']
+        elif e.kind in ('dict-get', 'dict-truth'):
+            o_ = e.data['dict']
+        elif e.kind == 'compare' and e.data['op'] in ('In', 'NotIn'):
+            o_ = e.data['r']
+        elif e.kind == 'loop':
+            o_ = e.data.get('of')
+        if o_ is not None and id(o_) in handed:
+            out['record_sharing'].add('%s is read again by the reader after the record was handed to the consumer (%s in %s)'
+                                      % (handed[id(o_)].replace('tree', 'record'), norm(e.node)[:50], e.fn))
     for yi, y in enumerate(yields):
         for oid, (o_, w_) in _containers(y.data['value']).items():
             if not isinstance(o_, (ADict, AList)):
@@ -94,6 +116,7 @@ def _task(X):
     H = ReaderHarness(P, R, havoc=True, stub_content=False, unknown_iters=_CTX[6] if len(_CTX) > 6 else (1,))
     H.extra_stubs = stubs
     H.record_compares = True
+    H.record_reads = True
     # the section is analysed after a real, legal history (the shortest one), frozen once a feasible way through it
     # has been found: every loop-carried variable then holds a value the code itself produced
     hist = history_to(table, X)
